@@ -802,6 +802,7 @@ pub fn run_plan<T: El + PartialEq, S: SEl>(plan: &mut Plan, gen: Option<(Profile
             }
             let arg_ids: Vec<u64> = args.iter().map(|e| e.id()).collect();
             let pre_owned: Vec<u64> = if kind == 'E' { env.owned_ids() } else { vec![] };
+            let pre_caps: Vec<Option<usize>> = env.bv.iter().map(|b| b.as_ref().map(|b| b.capacity())).collect();
             let pre_contents: Vec<Option<Vec<u64>>> = env.bv.iter().map(|b| b.as_ref().map(|b| b.iter().map(|e| e.id()).collect())).collect();
             let pre_len = env.bv.get(op.v).and_then(|b| b.as_ref().map(|b| b.len())).unwrap_or(0);
             let (z_created0, z_dropped0) = z_counts();
@@ -887,6 +888,17 @@ pub fn run_plan<T: El + PartialEq, S: SEl>(plan: &mut Plan, gen: Option<(Profile
                 let b = env.bv[op.v].as_ref().unwrap();
                 if b.capacity() < b.len().saturating_add(op.n) && b.len().checked_add(op.n).is_some() {
                     fail("C13", "reserve-not-honoured", format!("len={} n={} cap={}", b.len(), op.n, b.capacity()));
+                }
+            }
+            // C18 (Vec part): amortised growth — when one of the growing methods has to enlarge the buffer the
+            // new capacity is at least twice the old one (RawVec: max(2*cap, required)); reserve_exact is exempt
+            if matches!(name, "push" | "insert" | "extend" | "extend_from_slice" | "extend_copy" | "extend_slices" | "append"
+                | "resize" | "reserve" | "try_reserve") && kind != 'Z'
+            {
+                if let (Some(Some(c0)), Some(Some(b))) = (pre_caps.get(op.v), env.bv.get(op.v).map(|b| b.as_ref())) {
+                    if b.capacity() > *c0 && *c0 > 0 && b.capacity() < c0.saturating_mul(2) {
+                        fail("C18", "growth-not-geometric", format!("v{} cap {} -> {} (len={})", op.v, c0, b.capacity(), b.len()));
+                    }
                 }
             }
             if let Some(nb) = env.neighbours_ok() {
